@@ -175,9 +175,9 @@ class Flat(CGAThing):
 
         # from vectors on flat
         else:
-            nulls = map(self.cga.null_vector, args)
+            nulls = list(map(self.cga.null_vector, args))
             if self.einf not in nulls:
-                nulls = list(nulls)+[self.einf]
+                nulls = nulls + [self.einf]
 
             self.mv = reduce(op, nulls)
 
